@@ -35,9 +35,15 @@ def find_function(qualname):
             continue
         found = None
         body = node.body
+        part, _, role = part.partition("@")        # 'disorder@setter' selects the @disorder.setter definition
         # search direct children first, then (for <locals>) nested statements
         for child in body:
             if isinstance(child, (ast.FunctionDef, ast.ClassDef)) and child.name == part:
+                if isinstance(child, ast.FunctionDef):
+                    decs = [ast.unparse(d) for d in child.decorator_list]
+                    is_setter = any(d.endswith(".setter") for d in decs)
+                    if (role == "setter") != is_setter:
+                        continue
                 found = child
                 break
         if found is None and isinstance(node, ast.FunctionDef):
